@@ -896,7 +896,15 @@ def strip(case):
 def run(ctx):
     logging.disable(logging.CRITICAL)
     rng = ctx.rng
+    # second tie: re-translate the decision-carrying code of /repo (harness/pygen_c08.py); the equivalence lemmas of
+    # Proofs/ChainGen.v are then re-checked by check_props against what the code says now
+    from . import pygen_c08
+    gen_ok, gen_msg = pygen_c08.regenerate()
     ctx.proof = common.check_props(PROP)
+    if not gen_ok:
+        ctx.proof['ok'] = False
+        ctx.proof['log'] = 'harness/pygen_c08.py: ' + gen_msg + '\n' + ctx.proof.get('log', '')
+        ctx.proof['failed_file'] = 'theories/Gen/ChainGen.v (translation of /repo source failed)'
     ctx.rule = ('random ROADM meshes (2-5 ROADMs, degree 1-4, 1-4 spans per direction, fibre lengths 1 m - 2000 km and at '
                 'the split thresholds, fused junctions at every position, user amplifiers with full/partial/no settings, '
                 'Raman spans, random Span configurations incl. EOL, padding, connector defaults, power/gain mode, shuffled '
@@ -1041,6 +1049,7 @@ def run(ctx):
                               f'({[e["uid"] for e in ln["els"]][:12]})', sc, detail=det)
     ctx.extra['t_validator'] = round(time.time() - t0, 1)
     ctx.assumptions += [
+        'translator tie: harness/pygen_c08.py (fail-closed Python-ast -> Gallina, on harness/pygen.py; translated: calculate_new_length (every expression), min / target span length, split_fiber (single-span test, span uid), the isinstance tests / band decision / uid of add_roadm_booster, add_roadm_preamp, add_inline_amplifier, add_connector_loss (defaults, EOL test), add_fiber_padding (template and translator of pygen_c09); templates only for add_missing_elements_in_network, add_missing_fiber_attributes, get_next_node, get_previous_node, get_oms_edge_list(_from_egress), check_oms_single_type)',
         'lines are compared one by one: the model is per line (source, chain, destination, which end is designed first); '
         'that gnpy treats lines independently is what the comparison of every line of every network checks',
         'amplifier gain / delta_p / VOA values are only validated for presence here (their values are C09)',
